@@ -1,5 +1,5 @@
 (** Extraction of the executable C15 model for the correspondence driver (ExtrOcamlBasic only). *)
 From Coq Require Import Extraction ExtrOcamlBasic.
-From XV Require Import Gen.GenScannerFields C15.Classify15 C15.Model15 C15.Pool15.
+From XV Require Import Gen.GenScannerFields C15.Classify15 C15.Model15 C15.Pool15 C15.SInfo15.
 Extraction Language OCaml.
-Extraction "../ocaml/C15/gen_c15.ml" xdiff init0 inv_of all_inventories offenders reset_check exceptions ptrace pinit spec_get prun.
+Extraction "../ocaml/C15/gen_c15.ml" xdiff init0 inv_of all_inventories offenders reset_check exceptions ptrace pinit spec_get prun cache_list_offenders.
